@@ -23,3 +23,28 @@ package task
 //@ loop 0: invariant 0 <= $i && $i <= len(t.Commands) && len(results) == $i
 //@ loop 0: invariant forall k int :: {results[k]} 0 <= k && k < $i ==> results[k].Cmd == t.Commands[k]
 //@ loop 0: decreases len(t.Commands) - $i
+
+// expandVars: text/template glue; the substitution semantics (expandTpl) is assumed.
+//@ func expandVars
+//@ trusted text/template Parse/Execute
+//@ ensures result1 == nil ==> result0 == expandTpl(command, mapval(vars))
+
+// New: classification of dependency and output nodes, command expansion, verbatim name.
+//@ func New
+//@ props C05 C13 C12 C03
+//@ requires forall k int :: {t.Dependencies[k]} 0 <= k && k < len(t.Dependencies) ==> t.Dependencies[k] != nil
+//@ requires forall k int :: {t.Outputs[k]} 0 <= k && k < len(t.Outputs) ==> t.Outputs[k] != nil
+//@ ensures [matches] result1 == nil ==> TaskMatches(result0, t, root, mapval(vars))
+//@ ensures [C03,name] result1 == nil ==> result0.Name == t.Name.Name && result0.Doc == trimSpace(t.Docstring.Text)
+//@ ensures [C05,deps-classified] result1 == nil ==> result0.GlobDependencies == selGlob(t.Dependencies, len(t.Dependencies)) && result0.FileDependencies == selFile(root, t.Dependencies, len(t.Dependencies)) && result0.TaskDependencies == selIdent(t.Dependencies, len(t.Dependencies))
+//@ ensures [C05,outputs-classified] result1 == nil ==> result0.GlobOutputs == selGlob(t.Outputs, len(t.Outputs)) && result0.FileOutputs == selFile(root, t.Outputs, len(t.Outputs)) && result0.NamedOutputs == selIdent(t.Outputs, len(t.Outputs))
+//@ ensures [C13,commands-expanded] result1 == nil ==> len(result0.Commands) == len(t.Commands) && forall k int :: {result0.Commands[k]} 0 <= k && k < len(t.Commands) ==> result0.Commands[k] == expandTpl(t.Commands[k].Command, mapval(vars))
+//@ ensures [all-classified] result1 == nil ==> forall k int :: {t.Dependencies[k]} 0 <= k && k < len(t.Dependencies) ==> depKind(t.Dependencies[k]) != 0
+//@ loop 0: invariant 0 <= $i && $i <= len(t.Dependencies) && globDeps == selGlob(t.Dependencies, $i) && fileDeps == selFile(root, t.Dependencies, $i) && taskDeps == selIdent(t.Dependencies, $i)
+//@ loop 0: invariant forall k int :: {t.Dependencies[k]} 0 <= k && k < $i ==> depKind(t.Dependencies[k]) != 0
+//@ loop 0: decreases len(t.Dependencies) - $i
+//@ loop 1: invariant 0 <= $i && $i <= len(t.Commands) && len(commands) == $i
+//@ loop 1: invariant forall k int :: {commands[k]} 0 <= k && k < $i ==> commands[k] == expandTpl(t.Commands[k].Command, mapval(vars))
+//@ loop 1: decreases len(t.Commands) - $i
+//@ loop 2: invariant 0 <= $i && $i <= len(t.Outputs) && globOutputs == selGlob(t.Outputs, $i) && fileOutputs == selFile(root, t.Outputs, $i) && namedOutputs == selIdent(t.Outputs, $i)
+//@ loop 2: decreases len(t.Outputs) - $i
